@@ -332,7 +332,32 @@ fn drain_main(queue: Arc<roughenough::stats::StatsQueue>) {
     }
 }
 
-fn w_main(spec: ServerSpec, snap: bool) {
+/// An embedding program's earlier server: created for another seed on another port, used for
+/// nothing, dropped again before the servers under observation are created.
+fn prior_identity(spec: &ServerSpec, tag: i64) {
+    use roughenough::config::MemoryConfig;
+    let mut cfg = MemoryConfig::new(spec.port as u16 + 1);
+    cfg.interface = spec.interface.clone();
+    let mut other = [0u8; 32];
+    Rng::derive(tag as u64, "prior-identity").fill(&mut other);
+    cfg.seed = other.to_vec();
+    cfg.batch_size = 8;
+    cfg.num_workers = 1;
+    let addr: SocketAddr = format!("{}:{}", spec.interface, spec.port + 1).parse().unwrap();
+    let sock = {
+        use net2::unix::UnixUdpBuilderExt;
+        let raw = net2::UdpBuilder::new_v4().unwrap().reuse_address(true).unwrap().reuse_port(true).unwrap().bind(addr).expect("prior bind");
+        mio::net::UdpSocket::from_socket(raw).unwrap()
+    };
+    let queue = Arc::new(roughenough::stats::StatsQueue::new(2));
+    let server = roughenough::server::Server::new(&cfg, sock, queue);
+    drop(server);
+}
+
+fn w_main(spec: ServerSpec, snap: bool, prior: i64) {
+    if prior != 0 {
+        prior_identity(&spec, prior);
+    }
     if let Some(l) = spec.log_level {
         dsim::logger::set_level(level_of(l));
     } else {
@@ -370,7 +395,10 @@ pub fn start_server(plan: &Plan) {
         }
     });
     let pid = match spec.mode {
-        Mode::W => dsim::with(|w| w.spawn_proc("server", vec!["w-mode".into()], BTreeMap::new(), true, move || w_main(spec, snap))),
+        Mode::W => {
+            let prior = plan.p("prior_identity");
+            dsim::with(|w| w.spawn_proc("server", vec!["w-mode".into()], BTreeMap::new(), true, move || w_main(spec, snap, prior)))
+        }
         Mode::F => {
             let (argv, env) = match spec.source {
                 ConfigSource::Env => (vec!["roughenough-server".to_string(), "ENV".to_string()], config_env(&spec)),
